@@ -1,10 +1,10 @@
 SPECIFICATION Spec
 CONSTANTS
   Modules = {"htlc", "service", "farm"}
-  MaxIds = 2
-  Vals = {1}
+  MaxIds = 1
+  Vals = {1, 2}
   MaxH = 3
-  MaxDue = 1
+  MaxDue = 2
   Defect = "none"
   DefectMod = "none"
 VIEW View
